@@ -13,6 +13,9 @@ def run(tier, seed):
                 if not q and rounds == 24 and wl == "huge":
                     rounds = 12
                 runs.append({"args": ["--workload", wl, "--rounds", str(rounds)], "env": dict(env), "tag": an})
+            # the same with the virtual clock moving during the rounds (scheduled purges expire between the frees)
+            if an in ("default", "tiny") and (not q or wl in ("large", "mix", "huge")):
+                runs.append({"args": ["--workload", wl, "--rounds", "4" if q else "8", "--clock", "150"], "env": dict(env), "tag": an + ".clock"})
     return osfam.run_os("C11", tier, seed, runs, builds=["rel", "dbg"] if q else ["rel", "dbg", "sec"], own_guards=GUARDS, crash_decisive=False,
                         group=2 if q else 1,
                         extra_cov={"workloads": ["small", "large", "huge", "mt", "mix"], "arena_configs": [a for a, _ in ARENAS],
